@@ -119,7 +119,7 @@ def check_stored(spec, cfg, name, stored, expect, supplied=None):
     return M.first_diff(stored, expect, "config[%r]" % name)
 
 
-def judge(spec, chosen, label=''):
+def judge(spec, chosen, detail=False):
     """
     chosen: list of (option name, V).  Builds the configuration from the spec's minimal valid one,
     runs the real constructor in both forms and compares with the table/model.
@@ -194,7 +194,8 @@ def judge(spec, chosen, label=''):
             return Result('ACCEPTED', True, viol(sig, '%s constructed although %s' % (cname, why),
                                                  'ConfigError or voluptuous Error',
                                                  M.short(res['kwargs'][1].config, 300)), calls)
-        return Result('reject:' + ename(res['kwargs'][1]), True, None, calls)
+        tag = ('rule=' + rule) if rule else ('out=' + outs[0][1].vclass)
+        return Result('reject:%s:%s' % (ename(res['kwargs'][1]), tag), True, None, calls)
     if expected == 'accept' and not accepted:
         e = res['kwargs'][1]
         names = '+'.join(n for n, _ in chosen) or 'base'
@@ -278,7 +279,23 @@ def judge(spec, chosen, label=''):
             return Result('reconstruct-differs', True,
                           viol('reconstruct-differs:%s' % cname, '%s(obj.config) != obj: %s'
                                % (cname, M.first_diff(r[1].config, conf)), 'equal', None), calls)
-    return Result('accept' if expected == 'accept' else 'open-accept', True, None, calls)
+        # an equal grader also knows the same constants and permits the same functions
+        for attr in ('constants', 'permitted_functions'):
+            if hasattr(okw, attr) and set(getattr(okw, attr)) != set(getattr(r[1], attr, ())):
+                tag = (spec.cause(cfg) if spec.cause else None) or cname
+                diff = sorted(set(getattr(okw, attr)) ^ set(getattr(r[1], attr, ())))
+                return Result('reconstruct-differs', True,
+                              viol('reconstruct-differs:%s' % tag,
+                                   '%s(obj.config) == obj but its %s differ by %s' % (cname, attr, diff),
+                                   sorted(getattr(okw, attr))[:12], diff), calls)
+    out = 'accept' if expected == 'accept' else 'open-accept'
+    if detail == 'answers' and isinstance(conf.get('answers'), tuple):
+        a = conf['answers']
+        oks = sorted(set(str(x['ok']) for x in a if isinstance(x, dict) and 'ok' in x))
+        out += ':%d-answers:ok=%s' % (len(a), '/'.join(oks) or '-')
+    elif detail == 'options':
+        out += ':%d-options' % len(conf)
+    return Result(out, True, None, calls)
 
 
 # ----------------------------------------------------------------------------- families over the tables
@@ -316,9 +333,7 @@ class BaseConfig(TableFamily):
 
     @guarded
     def check(self, case):
-        r = judge(T.specs()[case[0]], [])
-        r.nontrivial = True
-        return r
+        return judge(T.specs()[case[0]], [], detail='options')
 
 
 class SingleOption(TableFamily):
@@ -378,7 +393,7 @@ class DocumentedDefault(TableFamily):
                                'omitting the option is not the same as supplying its documented default %s: %s'
                                % (T.label_of(o.default), M.first_diff(a[1].config, b[1].config)),
                                T.label_of(o.default), M.short(a[1].config.get(o.name))), 2)
-        return Result('same', True, None, 2)
+        return Result('same:' + type(a[1].config.get(o.name)).__name__, True, None, 2)
 
 
 UNKNOWN_KEYS = ['foo', 'answer', 'Debug', 'config_', '', 5]
@@ -423,7 +438,8 @@ class UnknownKey(TableFamily):
                 return Result('raises:' + ename(r[1]), True,
                               viol('wrong-error:%s:%s:unknown-key' % (ename(r[1]), spec.name),
                                    'unknown option %r raised %s: %s' % (key, ename(r[1]), str(r[1])[:200])), calls)
-        return Result('reject:' + ename(r[1]), True, None, calls)
+        named = 'names-the-key' if repr(key) in str(r[1]) else 'generic-message'
+        return Result('reject:%s:%s' % (ename(r[1]), named), True, None, calls)
 
 
 class OptionPairs(TableFamily):
@@ -488,7 +504,7 @@ class Grid(Family):
     def check(self, case):
         dims = self.dims()
         chosen = [(n, self._index[i][lab]) for i, ((n, _), lab) in enumerate(zip(dims, case))]
-        return judge(T.specs()[self.specname], chosen)
+        return judge(T.specs()[self.specname], chosen, detail='answers' if self.name.startswith('answers_') else False)
 
 
 def vals(*values, **kw):
@@ -945,7 +961,7 @@ class RegisteredDefaults(TableFamily):
                 return Result('cleared-differs', True,
                               viol('registered-default:%s.%s:not-cleared' % (spec.name, o.name),
                                    'after clear_registered_defaults the documented default is not restored: %s' % bad), calls)
-        return Result('registered', True, None, calls)
+        return Result('registered-on-%s:%s' % (case[2], type(a[1].config.get(o.name)).__name__), True, None, calls)
 
 
 # ----------------------------------------------------------------------------- the list of families
